@@ -4,6 +4,7 @@ from checks.engine import Failure
 
 WHAT = "model,hooks,classes,erase,roundtrip"
 LEVEL = "proof"
+WHOLE_TREE = True     # pi: the whole output tree of the executable model (positions aside)
 RULE = ("regression corpus + repository test snippets + seeded random programs (gen/jsgen.py) under pooled configurations; the "
         "extracted eraser (coq/Erase.v) is applied to the implementation's output tree and to the tree re-parsed from the printed "
         "content, and compared with the lowered input; non-trivial = the file was modified; distinct by source text")
